@@ -61,6 +61,27 @@ def vocabulary(tier: str) -> List[Tuple[tuple, tuple]]:
     return v
 
 
+def parsed_vocabulary() -> List[Tuple[tuple, tuple]]:
+    """The same records as the decoder hands them over, parsed from the wire on a socket without / with an interface scope:
+    where a record arrived must not change which record it is (only an IPv6 address carries a scope)."""
+    out = []
+    ip4 = b"\x01\x01\x01\x01"
+    ip6 = bytes(15) + b"\x01"
+    for scope in (None, 3):
+        for cls in (IN, FL):
+            out.append((("parsed", ("addr", "h.local.", 1, cls, 120, (ip4, None), 1000.0), scope),
+                        ("addr", "h.local.", 1, cls & 0x7FFF, (ip4, None))))
+            out.append((("parsed", ("addr", "h.local.", 28, cls, 120, (ip6, None), 1000.0), scope),
+                        ("addr", "h.local.", 28, cls & 0x7FFF, (ip6, scope))))
+            out.append((("parsed", ("ptr", "h.local.", 12, cls, 120, ("x.local.",), 1000.0), scope),
+                        ("ptr", "h.local.", 12, cls & 0x7FFF, ("x.local.",))))
+            out.append((("parsed", ("srv", "h.local.", 33, cls, 120, (0, 0, 80, "s.local."), 1000.0), scope),
+                        ("srv", "h.local.", 33, cls & 0x7FFF, (0, 0, 80, "s.local."))))
+            out.append((("parsed", ("txt", "h.local.", 16, cls, 120, (b"\x01a",), 1000.0), scope),
+                        ("txt", "h.local.", 16, cls & 0x7FFF, (b"\x01a",))))
+    return out
+
+
 def question_vocabulary() -> List[Tuple[tuple, tuple]]:
     out = []
     for n in ("h.local.", "H.Local.", "g.local.", "_a._tcp.local.", "_A._TCP.local.", "straße.local.", "strasse.local."):
@@ -74,6 +95,11 @@ def build(spec: tuple) -> Any:
     from zeroconf import (DNSAddress, DNSHinfo, DNSNsec, DNSPointer, DNSQuestion, DNSService, DNSText)
 
     kind = spec[0]
+    if kind == "parsed":
+        from zeroconf import DNSIncoming, DNSOutgoing
+        out = DNSOutgoing(0x8400)
+        out.add_answer_at_time(build(spec[1]), 0)
+        return DNSIncoming(out.packets()[0], ("fe80::9", 5353) if spec[2] else ("10.0.0.9", 5353), spec[2]).answers()[0]
     if kind == "q":
         return DNSQuestion(spec[1], spec[2], spec[3])
     _, name, t, c, ttl, rd, cr = spec
@@ -99,7 +125,7 @@ def run(tier: str, seed: int) -> Tuple[Stats, str, List[str], Dict[str, Any]]:
     from zeroconf._dns import DNSNsec
 
     stats = Stats()
-    vocab = vocabulary(tier)
+    vocab = vocabulary(tier) + parsed_vocabulary()
     qv = question_vocabulary()
     specs = [s for s, _ in vocab] + [s for s, _ in qv]
     idents = [i for _, i in vocab] + [i for _, i in qv]
